@@ -324,6 +324,9 @@ struct Item {
     route: &'static str,
     key: (Option<String>, Option<String>, Option<String>, Vec<String>),
     desc: Value,
+    /// canonical text and digest of the extension map and of its three lists (each is a type of its own with
+    /// Eq / Ord / Hash / Display, so the property quantifies over them too)
+    ext: [(String, u64); 4],
 }
 
 /// Same logical value along a different route.
@@ -550,7 +553,9 @@ fn item(loc: Locale, route: &'static str, desc: Value) -> Item {
     let s = loc.to_string();
     let ids = loc.id.to_string();
     let key = order_key(&obs_li(&loc.id));
-    Item { hash: h64(&loc), idhash: h64(&loc.id), s, ids, loc, route, key, desc }
+    let e = &loc.extensions;
+    let ext = [(e.to_string(), h64(e)), (e.unicode.to_string(), h64(&e.unicode)), (e.transform.to_string(), h64(&e.transform)), (e.private.to_string(), h64(&e.private))];
+    Item { hash: h64(&loc), idhash: h64(&loc.id), s, ids, loc, route, key, desc, ext }
 }
 
 fn viol(ctx: &mut Ctx, clause: &str, w: Value, detail: String) {
@@ -589,6 +594,27 @@ pub fn c12_check_two(a: &Locale, b: &Locale) -> Vec<Fail> {
     if ka != kb && a.cmp(b) != ka.cmp(&kb) {
         out.push(fail("locale-order-major-key", format!("{:?}.cmp({:?}) = {:?} but the ids order {:?}", sa, sb, a.cmp(b), ka.cmp(&kb))));
     }
+    // the extension map and its three lists as values of their own
+    fn one<T: Eq + Ord + Hash + std::fmt::Display>(ty: &str, x: &T, y: &T, out: &mut Vec<Fail>) {
+        let (tx, ty_) = (x.to_string(), y.to_string());
+        let teq = tx == ty_;
+        if (x == y) != teq {
+            out.push(fail("extensions-eq-vs-string", format!("{} {:?} == {:?} is {} but their strings are {}", ty, tx, ty_, x == y, if teq { "equal" } else { "different" })));
+        }
+        if teq && (h64(x) != h64(y) || x.cmp(y) != Ordering::Equal) {
+            out.push(fail("extensions-equal-but-hash-or-cmp-differ", format!("{} {:?}", ty, tx)));
+        }
+        if !teq && x.cmp(y) == Ordering::Equal {
+            out.push(fail("extensions-cmp-equal-but-different", format!("{} {:?} and {:?} are different values but compare Equal", ty, tx, ty_)));
+        }
+        if x.cmp(y) != y.cmp(x).reverse() || x.partial_cmp(y) != Some(x.cmp(y)) {
+            out.push(fail("extensions-cmp-antisymmetry", format!("{} {:?} vs {:?}", ty, tx, ty_)));
+        }
+    }
+    one("ExtensionsMap", &a.extensions, &b.extensions, &mut out);
+    one("UnicodeExtensionList", &a.extensions.unicode, &b.extensions.unicode, &mut out);
+    one("TransformExtensionList", &a.extensions.transform, &b.extensions.transform, &mut out);
+    one("PrivateExtensionList", &a.extensions.private, &b.extensions.private, &mut out);
     out
 }
 
@@ -682,6 +708,7 @@ pub fn run_c12(ctx: &mut Ctx) {
     ctx.extra.insert("pool".into(), json!({"values": pool.len(), "logical_values": logical, "ordered_pairs": pool.len() * pool.len()}));
     // (a) all ordered pairs, rows sharded
     let n = pool.len();
+    let (mut ext_equal, mut ext_diff) = (0u64, 0u64);
     for i in (ctx.shard..n).step_by(ctx.nshards) {
         let a = &pool[i];
         mon::begin_case(a.s.as_bytes());
@@ -731,8 +758,39 @@ pub fn run_c12(ctx: &mut Ctx) {
             if kc != Ordering::Equal {
                 ctx.sig(SigH::new(0x120).b(a.ids.as_bytes()).u(kc as i8 as u64).fin());
             }
+            // the extension map and its three lists as values of their own
+            let (ea, eb) = (&a.loc.extensions, &b.loc.extensions);
+            let parts: [(&'static str, bool, Ordering, Ordering, Option<Ordering>); 4] = [
+                ("ExtensionsMap", ea == eb, ea.cmp(eb), eb.cmp(ea), ea.partial_cmp(eb)),
+                ("UnicodeExtensionList", ea.unicode == eb.unicode, ea.unicode.cmp(&eb.unicode), eb.unicode.cmp(&ea.unicode), ea.unicode.partial_cmp(&eb.unicode)),
+                ("TransformExtensionList", ea.transform == eb.transform, ea.transform.cmp(&eb.transform), eb.transform.cmp(&ea.transform), ea.transform.partial_cmp(&eb.transform)),
+                ("PrivateExtensionList", ea.private == eb.private, ea.private.cmp(&eb.private), eb.private.cmp(&ea.private), ea.private.partial_cmp(&eb.private)),
+            ];
+            for (k, (ty, eq, c, rc, pc)) in parts.into_iter().enumerate() {
+                let (ta, tb) = (&a.ext[k], &b.ext[k]);
+                let teq = ta.0 == tb.0;
+                if teq {
+                    ext_equal += 1;
+                } else {
+                    ext_diff += 1;
+                }
+                if eq != teq {
+                    viol(ctx, "extensions-eq-vs-string", json!({"a": a.s, "b": b.s, "route_a": a.route, "route_b": b.route, "type": ty}), format!("{} {:?} == {:?} is {} but their strings are {}", ty, ta.0, tb.0, eq, if teq { "equal" } else { "different" }));
+                }
+                if teq && (ta.1 != tb.1 || c != Ordering::Equal) {
+                    viol(ctx, "extensions-equal-but-hash-or-cmp-differ", json!({"a": a.s, "b": b.s, "route_a": a.route, "route_b": b.route, "type": ty}), format!("{} {:?}: hash {} vs {}, cmp {:?}", ty, ta.0, ta.1, tb.1, c));
+                }
+                if !teq && c == Ordering::Equal {
+                    viol(ctx, "extensions-cmp-equal-but-different", json!({"a": a.s, "b": b.s, "type": ty}), format!("{} {:?} and {:?} are different values but compare Equal", ty, ta.0, tb.0));
+                }
+                if c != rc.reverse() || pc != Some(c) {
+                    viol(ctx, "extensions-cmp-antisymmetry", json!({"a": a.s, "b": b.s, "type": ty}), format!("{} {:?} vs {:?}: {:?} / {:?} / {:?}", ty, ta.0, tb.0, c, rc, pc));
+                }
+            }
         }
     }
+    ctx.count_n("extension-values:pairs equal by string", ext_equal);
+    ctx.count_n("extension-values:pairs different", ext_diff);
     mon::idle();
     // (b) totality/transitivity over the whole pool at once (shard 0 only: it is O(n log n) + one pass)
     if ctx.shard == 0 {
@@ -882,6 +940,101 @@ pub fn run_c12(ctx: &mut Ctx) {
         if regions.windows(2).any(|w| w[0].as_str() >= w[1].as_str()) {
             viol(ctx, "subtag-order", json!({"type": "region"}), "Region order is not text order".into());
         }
+    }
+    // every ordered pair of the distinct subtags of the pool, each reached by three routes (taken from a parsed
+    // value, parsed again from its upper-cased text, rebuilt from its integer form): equality, hashing and order
+    // of the four subtag types must follow their text
+    if ctx.shard == 0 {
+        fn all_pairs<T: Copy + Eq + Ord + Hash>(ctx: &mut Ctx, ty: &'static str, items: &[(T, String, &'static str)], und_first: bool) {
+            let hs: Vec<u64> = items.iter().map(|x| h64(&x.0)).collect();
+            let mut pairs = 0u64;
+            for (i, (x, tx, rx)) in items.iter().enumerate() {
+                for (j, (y, ty_, ry)) in items.iter().enumerate() {
+                    pairs += 1;
+                    let teq = tx == ty_;
+                    let c = x.cmp(y);
+                    let want = if und_first {
+                        let k = |t: &String| if t == "und" { None } else { Some(t.clone()) };
+                        k(tx).cmp(&k(ty_))
+                    } else {
+                        tx.cmp(ty_)
+                    };
+                    if (x == y) != teq || (teq && hs[i] != hs[j]) || c != want || y.cmp(x) != c.reverse() || x.partial_cmp(y) != Some(c) {
+                        viol(ctx, "subtag-pair", json!({"type": ty, "a": tx, "b": ty_, "route_a": rx, "route_b": ry}), format!("{} {:?} ({}) vs {:?} ({}): == is {}, hashes {}, cmp {:?} (text order {:?})", ty, tx, rx, ty_, ry, x == y, if hs[i] == hs[j] { "equal" } else { "differ" }, c, want));
+                    }
+                }
+            }
+            ctx.evals += pairs;
+            ctx.count_n("subtag-pairs (all ordered pairs of distinct subtags x 3 routes)", pairs);
+        }
+        let cap = if quick { 400 } else { 1500 };
+        let mut langs: Vec<Language> = pool.iter().map(|p| p.loc.id.language).collect();
+        langs.sort();
+        langs.dedup();
+        langs.truncate(cap);
+        let mut li: Vec<(Language, String, &'static str)> = vec![];
+        for l in langs {
+            let t = l.as_str().to_string();
+            li.push((l, t.clone(), "value"));
+            if let Ok(m) = Language::from_bytes(t.to_ascii_uppercase().as_bytes()) {
+                li.push((m, t.clone(), "from_bytes(upper case)"));
+            }
+            let raw: Option<u64> = l.into();
+            if let Ok(m) = guard(|| unsafe { Language::from_raw_unchecked(raw.unwrap_or(0)) }) {
+                if raw.is_some() {
+                    li.push((m, t.clone(), "from_raw_unchecked"));
+                }
+            }
+        }
+        all_pairs(ctx, "language", &li, true);
+        let mut scripts: Vec<Script> = pool.iter().filter_map(|p| p.loc.id.script).collect();
+        scripts.sort();
+        scripts.dedup();
+        scripts.truncate(cap);
+        let mut si: Vec<(Script, String, &'static str)> = vec![];
+        for x in scripts {
+            let t = x.as_str().to_string();
+            si.push((x, t.clone(), "value"));
+            if let Ok(m) = Script::from_bytes(t.to_ascii_uppercase().as_bytes()) {
+                si.push((m, t.clone(), "from_bytes(upper case)"));
+            }
+            if let Ok(m) = guard(|| unsafe { Script::from_raw_unchecked(x.into()) }) {
+                si.push((m, t.clone(), "from_raw_unchecked"));
+            }
+        }
+        all_pairs(ctx, "script", &si, false);
+        let mut regions: Vec<Region> = pool.iter().filter_map(|p| p.loc.id.region).collect();
+        regions.sort();
+        regions.dedup();
+        regions.truncate(cap);
+        let mut ri: Vec<(Region, String, &'static str)> = vec![];
+        for x in regions {
+            let t = x.as_str().to_string();
+            ri.push((x, t.clone(), "value"));
+            if let Ok(m) = Region::from_bytes(t.to_ascii_lowercase().as_bytes()) {
+                ri.push((m, t.clone(), "from_bytes(lower case)"));
+            }
+            if let Ok(m) = guard(|| unsafe { Region::from_raw_unchecked(x.into()) }) {
+                ri.push((m, t.clone(), "from_raw_unchecked"));
+            }
+        }
+        all_pairs(ctx, "region", &ri, false);
+        let mut vars: Vec<Variant> = pool.iter().flat_map(|p| p.loc.id.variants().cloned().collect::<Vec<_>>()).collect();
+        vars.sort();
+        vars.dedup();
+        vars.truncate(cap);
+        let mut vi: Vec<(Variant, String, &'static str)> = vec![];
+        for x in vars {
+            let t = x.as_str().to_string();
+            vi.push((x, t.clone(), "value"));
+            if let Ok(m) = Variant::from_bytes(t.to_ascii_uppercase().as_bytes()) {
+                vi.push((m, t.clone(), "from_bytes(upper case)"));
+            }
+            if let Ok(m) = guard(|| unsafe { Variant::from_raw_unchecked(x.into()) }) {
+                vi.push((m, t.clone(), "from_raw_unchecked"));
+            }
+        }
+        all_pairs(ctx, "variant", &vi, false);
     }
     mon::idle();
     for it in pool.iter().take(2) {
